@@ -16,6 +16,7 @@ pub fn run_stream(ctx: &mut Ctx, name: &str) {
 			concat_stream(ctx);
 		},
 		"big" => big_stream(ctx),
+		"utf8" => utf8_stream(ctx),
 		other => panic!("unknown stream {}", other),
 	}
 }
@@ -642,5 +643,66 @@ fn big_stream(ctx: &mut Ctx) {
 		let bs = s.encode();
 		let (ans, _) = dec_answer::<String>(&bs);
 		ctx.emit("big-rt", "String", &format!("dec str {}", hex_or_dash(&bs)), &ans);
+	}
+}
+
+// ---------------------------------------------------------------------------------------------
+// UTF-8 validity: the model's `utf8Valid` against `String::from_utf8` (C03)
+// ---------------------------------------------------------------------------------------------
+
+fn utf8_case(ctx: &mut Ctx, payload: &[u8]) {
+	let mut bs = Compact(payload.len() as u32).encode();
+	bs.extend_from_slice(payload);
+	let (ans, _) = dec_answer::<String>(&bs);
+	ctx.emit("utf8", "String", &format!("dec str {}", hex_or_dash(&bs)), &ans);
+}
+
+fn utf8_stream(ctx: &mut Ctx) {
+	let thorough = ctx.tier_thorough;
+	let edge = [0x00u8, 0x7f, 0x80, 0x8f, 0x90, 0x9f, 0xa0, 0xbf, 0xc0, 0xff];
+	for a in 0..=255u8 {
+		utf8_case(ctx, &[a]);
+		for b in 0..=255u8 {
+			utf8_case(ctx, &[a, b]);
+		}
+	}
+	for a in 0xe0..=0xefu8 {
+		for b in 0..=255u8 {
+			if thorough {
+				for c in 0..=255u8 {
+					utf8_case(ctx, &[a, b, c]);
+				}
+			} else {
+				for &c in &edge {
+					utf8_case(ctx, &[a, b, c]);
+				}
+			}
+		}
+	}
+	for a in 0xf0..=0xf8u8 {
+		for &b in &edge {
+			for &c in &edge {
+				for &d in &edge {
+					utf8_case(ctx, &[a, b, c, d]);
+					utf8_case(ctx, &[0x41, a, b, c, d, 0x42]);
+				}
+			}
+		}
+		for b in 0x80..=0xbfu8 {
+			utf8_case(ctx, &[a, b, 0x80, 0x80]);
+			utf8_case(ctx, &[a, b, 0xbf, 0xbf]);
+		}
+	}
+	let mut rng = Rng::new(ctx.seed ^ 0x07F8);
+	for _ in 0..(if thorough { 200_000 } else { 20_000 }) {
+		let n = rng.below(12) as usize;
+		let mut g = G::new(rng.next(), 8);
+		let mut s = crate::modeled::gen_string(&mut g).into_bytes();
+		s.truncate(n.max(1).min(s.len()));
+		if !s.is_empty() && rng.chance(1, 2) {
+			let i = rng.below(s.len() as u64) as usize;
+			s[i] = rng.below(256) as u8;
+		}
+		utf8_case(ctx, &s);
 	}
 }
